@@ -118,6 +118,10 @@ def fix_update(op):
     return op
 
 
+def op_update_primed_invalid():
+    return st.tuples(st.just("update_primed_invalid"), st.one_of(st.just(["leaf", "time", [], ["noop"]]), gen.queries(1)), st.sampled_from([None, None, "m1"]), st.sampled_from(["db", "handle"]), st.booleans()).map(list)
+
+
 def op_bad_update():
     kinds = ["no_args", "all_falsy", "bad_time", "bad_measurement", "bad_tags", "bad_tag_key", "bad_fields", "bad_field_bool", "bad_unset_tags", "bad_unset_fields", "not_a_query"]
     return st.tuples(st.just("bad_update"), st.sampled_from(kinds), gen.queries(1), st.sampled_from([None, None, "m1"])).map(list)
@@ -222,7 +226,7 @@ def history(profile, max_ops=30, min_ops=1):
     table["insert"] = st.one_of(op_insert(), op_insert(), op_insert(), op_insert(), op_insert_stamped())
     table["remove"] = st.one_of(op_remove(), op_remove_hit(), op_remove_hit())
     table["update"] = st.one_of(op_update(), op_update_hit(), op_update_hit())
-    table["fault_update"] = st.one_of(op_update(True), op_update_hit(True), op_update_hit(True))
+    table["fault_update"] = st.one_of(op_update(True), op_update_hit(True), op_update_hit(True), op_update_primed_invalid())
     table["clean_fault_update"] = st.one_of(op_update("clean"), op_update_hit("clean"), op_update_hit("clean"))
     names = [n for n, k in w.items() for _ in range(k)]
     one = st.sampled_from(names).flatmap(lambda n: table[n])
